@@ -14,10 +14,10 @@ def process_level(res, tier):
     wd = pl.workdir("c08")
     base = ["-s", 16, "-N", 16, "-T", 2, "-n", 4, "-G", 0, "--padding", 2, "--InitialDistZoom", 0.8, "-d", 0.001]
     pats = {"single": [1e-3], "two": [1e-3, 1e-3], "gap": [1e-3, 0, 1e-3], "trailing-empty": [1e-3, 0], "three-unequal": [1e-3, 2e-3, 5e-4]}
-    if tier == "thorough":
+    if vlib.wide(tier):
         pats.update({"leading-empty": [0, 1e-3], "four": [1e-3, 1e-3, 0, 1e-3]})
     # (RF model, interpolation points, Fokker-Planck variant)
-    variants = [("linear", 4, 3), ("sin", 3, 3), ("linear", 3, 0), ("sin", 4, 1), ("linear", 2, 2)] if tier == "thorough" else [("linear", 4, 3), ("sin", 3, 0)]
+    variants = [("linear", 4, 3), ("sin", 3, 3), ("linear", 3, 0), ("sin", 4, 1), ("linear", 2, 2)] if vlib.wide(tier) else [("linear", 4, 3), ("sin", 3, 0)]
     jobs = [(k, rf, it, fp) for k in pats for rf, it, fp in variants]
 
     def do(j):
